@@ -3,14 +3,40 @@ import os
 
 from framework import scale, CaseResult, text_points
 from props import c01
-from props.tapecommon import CaseDir, TAPE, encoded_size, gen_content, gen_source_path, materialize, real_path_of
+from props.tapecommon import CaseDir, TAPE, encoded_size, gen_content, gen_source_path, materialize, real_path_of, run_tool
 
 GEN_FILES = ["GenTape"]
 RULE = ("as C01 but names and extensions longer than 8.3 are included (fields must still be 8 and 3 bytes) and duplicates are allowed; "
         "the oracle is the extracted strict decoder Spec.K7.k7_decode (written from the format description) applied to the bytes the real tool wrote, "
         "compared with Spec.doc_entry of every source (documented kind/mode table), plus the 21504-byte length. "
         "signature = C01's features + {long-name, long-ext}; non-trivial = a data-bearing file with a long name, a ',a' marker, a CSV, or several blocks")
-ASSUMPTIONS = c01.ASSUMPTIONS
+ASSUMPTIONS = c01.ASSUMPTIONS + ["for the source names outside ASCII (a separate stream of cases) 'upper case' is what Python's str.upper() answers and the fields hold the first 8 and 3 bytes of its UTF-8 form; "
+                                  "the model (ASCII names only) is not consulted on them, only the extracted decoder Spec.K7.k7_decode and Spec.doc_entry are"]
+
+# letters outside ASCII, among them those whose upper-case form is longer than the letter (the position of the last dot then differs between the name and its upper-case form)
+WIDE = ["\u00df", "\u0149", "\u01f0", "\ufb01", "\ufb02", "\ufb00", "\ufb03", "\ufb06", "\u0390", "\u00e9", "\u00c9", "\u00e0", "\u00fc", "\u00f1", "\u00ff", "\u00b5", "\u0131", "\u0434", "\u03c9"]
+
+
+def gen_wide_name(rng):
+    n = rng.choice([1, 2, 3, 5, 7, 8, 9])
+    s = "".join(rng.choice(WIDE) if rng.random() < 0.35 else rng.choice("abcxyzABC019_") for _ in range(n))
+    if s.isascii():
+        s = s[:-1] + rng.choice(WIDE[:9])
+    r = rng.random()
+    if r < 0.12:
+        return s
+    ext = rng.choice(["bas", "BAS", "bas,a", "Bas,A", "csv", "CSV", "bin", "dat", "txt", "b", ""])
+    if r < 0.3:
+        ext = rng.choice(["ba\u00df", "\ufb01", "c\u00df", "\u00e9", "ba\u017f", "\u00dfas", "\u00e9t\u00e9"])
+    return s + "." + ext
+
+
+def doc_points(arg):
+    """what Spec.doc_entry is given for a source: its code points, or for a name outside ASCII the UTF-8 bytes of its upper-case form"""
+    if arg.isascii():
+        return text_points(arg)
+    b = os.path.basename(arg)
+    return list((arg[:len(arg) - len(b)] + b.upper()).encode("utf-8"))
 
 
 def gen_cases(rng, tier):
@@ -39,7 +65,14 @@ def gen_cases(rng, tier):
     cases.append({"sources": [{"arg": a, "content": {"pat": pz, "len": 200 + 17 * k}} for k, (a, pz) in enumerate([("list.bas,a", eol), ("prog.bas", eol), ("data.csv", eol), ("bin.bin", eol), ("noext", eol),
                                                                                                              ("bom.bas,a", "efbbbf" + eol), ("LF.BAS,A", "0a0d0a0a"), ("cr.csv", "0d0d0a")])],
                   "verbose": False, "archive": "t.k7"})
-    return cases, {"random": n, "capacity frontier (-3..+22 bytes)": nf, "fixed": 4}
+    nw = scale(tier, 40, 600)
+    fixed_wide = ["stra\u00dfe.bas", "gru\u00df.csv", "\u00e9t\u00e9.bas,a", "\ufb01le.bin", "\u00c9T\u00c9.dat", "\u0149.bas", "a\u00dfb\u00dfc\u00dfd\u00df.bas", "\u00df", "\u00df.\u00df", "x.ba\u00df", "\ufb03.\ufb01", "d+.x/\u00df.csv"]
+    for k, a in enumerate(fixed_wide):
+        cases.append({"wide": True, "sources": [{"arg": a, "content": {"pat": "4142", "len": 3 + 100 * k}}], "verbose": k % 2 == 0, "archive": "t.k7"})
+    for _ in range(nw):
+        cases.append({"wide": True, "sources": [{"arg": rng.choice(["", "", "s+/", "d+.x/"]) + gen_wide_name(rng), "content": gen_content(rng) if rng.random() < 0.5 else {"pat": "41", "len": rng.choice([0, 1, 254, 300])}}
+                                                   for _ in range(rng.choice([1, 1, 2, 3]))], "verbose": rng.random() < 0.3, "archive": "t.k7"})
+    return cases, {"random": n, "capacity frontier (-3..+22 bytes)": nf, "fixed": 4, "names outside ASCII (oracle only)": nw + len(fixed_wide)}
 
 
 def oracle(case, obs, ctx):
@@ -57,7 +90,7 @@ def oracle(case, obs, ctx):
     dec = ctx.model.call("k7_decode", raw)
     if not dec:
         return {"strict decoder rejects the archive": True}
-    want = [ctx.model.call("doc_entry", text_points(s["arg"]), c) for s, c in zip(case["sources"], contents)]
+    want = [ctx.model.call("doc_entry", doc_points(s["arg"]), c) for s, c in zip(case["sources"], contents)]
     got = dec[0]
     norm = lambda e: [bytes(e[0]), bytes(e[1]), e[2], e[3], [bytes(c) for c in e[4]]]
     if [norm(e) for e in got] != [norm(e) for e in want]:
@@ -67,7 +100,29 @@ def oracle(case, obs, ctx):
     return None
 
 
+def run_wide_case(case, ctx):
+    """names outside ASCII: the real tool creates the archive, the extracted decoder and the documented entry judge it; the model is not consulted"""
+    cd = CaseDir(ctx)
+    try:
+        contents = []
+        for s in case["sources"]:
+            data = materialize(s["content"])
+            contents.append(data)
+            cd.put(real_path_of(s["arg"]), data)
+        if encoded_size(contents) >= TAPE:
+            return CaseResult(True, True, None, ["wide-name", "does-not-fit"], False)
+        r = run_tool(ctx, "tar", ["-c"] + (["-v"] if case["verbose"] else []) + [case["archive"]] + [s["arg"] for s in case["sources"]], cd)
+        obs = {"contents": contents, "create": r, "archive_bytes": cd.get(case["archive"])}
+        bad = oracle(case, obs, ctx)
+        f = sorted(set(c01.features(case, contents)) | {"wide-name"} | ({"upper-is-longer"} if any(len(os.path.basename(s["arg"]).upper()) != len(os.path.basename(s["arg"])) for s in case["sources"]) else set()))
+        return CaseResult(True, bad is None, {"oracle": bad} if bad else None, f, True)
+    finally:
+        cd.close()
+
+
 def run_case(case, ctx):
+    if case.get("wide"):
+        return run_wide_case(case, ctx)
     cd = CaseDir(ctx)
     try:
         if case.get("old") is not None:
